@@ -13,6 +13,8 @@
 (*             the above or be refused - all outcomes are explored         *)
 (*   sameseq : a middle fragment with a stale sequence number: discard     *)
 (*   newts   : a start fragment of another frame                           *)
+(*   nomark  : the packets of a valid frame in order, marker bit cleared   *)
+(*   allmark : the same with the marker bit set on every packet            *)
 (* TLC checks  retained <= Cap + 1  and  returned <= Cap + 1  in every     *)
 (* reachable state, for every class history up to MaxLen.                  *)
 (***************************************************************************)
@@ -40,7 +42,8 @@ React(c) ==
     [] c = "end" -> End
     [] c = "single" -> Single
     [] c = "sameseq" -> Refuse
-    [] c = "valid" -> (Start \/ Middle \/ End)
+    [] c \in {"valid", "nomark"} -> (Start \/ Middle \/ End)
+    [] c = "allmark" -> (Start \/ Middle \/ End \/ Single)
     [] OTHER -> (Start \/ Middle \/ End \/ Single \/ Refuse)     \* garbage
 
 Step(c) ==
@@ -55,5 +58,5 @@ Spec == Init /\ [][Next]_vars
 Bounded == retained <= Cap + 1 /\ lastOut <= Cap + 1
 
 AllClasses == {"start", "middle", "end", "single", "valid", "trunc", "random", "hdrkeep",
-               "bitflip", "sameseq", "newts"}
+               "bitflip", "sameseq", "newts", "nomark", "allmark"}
 =============================================================================
